@@ -26,7 +26,7 @@ func (e *Eng) execFunc(fn *ssa.Function, args []*Val, bindings []*Val, st *State
 	}
 	fr := &Frame{fn: fn, vals: map[ssa.Value]*Val{}, guard: map[*ssa.BasicBlock]string{}, in: map[*ssa.BasicBlock][]edgeIn{},
 		depth: depth, prefix: prefix, fspec: fspec, loopOrd: map[*ssa.BasicBlock]int{}, descN: map[string]int{}, entryGuard: guard,
-		inheritedNonNil: e.pendingNonNil}
+		inheritedNonNil: e.pendingNonNil, autoBounds: map[*ssa.BasicBlock]func(*State, map[*ssa.Phi]*Val, *ssa.BasicBlock, string){}}
 	e.pendingNonNil = nil
 	for i, p := range fn.Params {
 		if i < len(args) {
@@ -34,6 +34,7 @@ func (e *Eng) execFunc(fn *ssa.Function, args []*Val, bindings []*Val, st *State
 		}
 	}
 	fr.params = args
+	fr.old = st.clone()
 	for i, fv := range fn.FreeVars {
 		if i < len(bindings) {
 			fr.vals[fv] = bindings[i]
@@ -264,18 +265,76 @@ func (e *Eng) loopHeader(fr *Frame, h *ssa.BasicBlock, phis []*ssa.Phi, cur *Sta
 			autos = append(autos, autoInv{p, initT})
 		}
 	}
+	// auto candidate invariants for bottom-tested loops (e.g. `for i := range n`):
+	// the back edge is taken only if next < N, so `phi < N` is proposed and *checked* like a written invariant
+	type autoBound struct {
+		phi *ssa.Phi
+		op  token.Token
+		n   ssa.Value
+	}
+	var bounds []autoBound
+	for _, p := range phis {
+		if !isInteger(p.Type()) {
+			continue
+		}
+		for i, pr := range h.Preds {
+			if !back[[2]int{pr.Index, h.Index}] {
+				continue
+			}
+			iff, ok := pr.Instrs[len(pr.Instrs)-1].(*ssa.If)
+			if !ok || pr.Succs[0] != h {
+				continue
+			}
+			bo, ok := iff.Cond.(*ssa.BinOp)
+			if !ok || (bo.Op != token.LSS && bo.Op != token.LEQ) || bo.X != p.Edges[i] {
+				continue
+			}
+			// N must be defined outside the loop
+			if ins, ok := bo.Y.(ssa.Instruction); ok && body[ins.Block()] {
+				continue
+			}
+			dup := false
+			for _, b := range bounds {
+				if b.phi == p && b.n == bo.Y && b.op == bo.Op {
+					dup = true
+				}
+			}
+			if !dup {
+				bounds = append(bounds, autoBound{p, bo.Op, bo.Y})
+			}
+		}
+	}
+	boundTerm := func(b autoBound, v string) string {
+		n := e.valOf(fr, cur, b.n)
+		if b.op == token.LSS {
+			return sx("<", v, n.T)
+		}
+		return sx("<=", v, n.T)
+	}
+	for _, b := range bounds {
+		e.oblige("loop-entry", fmt.Sprintf("#%d/auto-bound:%s", ord, b.phi.Comment), e.safety(fr), h.Instrs[0].Pos(), g, boundTerm(b, fr.vals[b.phi].T))
+	}
+	fr.autoBounds[h] = func(st *State, vals map[*ssa.Phi]*Val, from *ssa.BasicBlock, guard string) {
+		for _, b := range bounds {
+			e.oblige("loop-step", fmt.Sprintf("#%d/auto-bound:%s", ord, b.phi.Comment), e.safety(fr), from.Instrs[len(from.Instrs)-1].Pos(), guard, boundTerm(b, vals[b.phi].T))
+		}
+	}
 	// 1. entry obligations
 	env := e.loopEnv(fr, h, phis, nil)
 	for _, inv := range invs {
-		t := e.evalClause(inv, env, cur, fr.old, fr)
+		t := e.evalClause(inv, env, cur, fr.oldFor(cur), fr)
 		e.oblige("loop-entry", fmt.Sprintf("#%d/%s", ord, inv.Label), inv.Props, h.Instrs[0].Pos(), g, t)
 	}
 	// 2. havoc
 	oldFr := e.get(cur, frRegion, "Int")
 	oldClock := e.get(cur, clockRegion, "Int")
-	mods := e.loopMods(fr, body)
+	mods, gen := e.loopMods(fr, body)
 	for _, r := range sortedKeys(mods) {
-		e.havocReg(cur, r)
+		if !gen[r] && r != frRegion && r != clockRegion {
+			e.havocRegFresh(cur, r, oldFr)
+		} else {
+			e.havocReg(cur, r)
+		}
 	}
 	if mods[frRegion] {
 		e.sc.assume(sx(">=", e.get(cur, frRegion, "Int"), oldFr), "frontier monotone over loop")
@@ -293,9 +352,12 @@ func (e *Eng) loopHeader(fr *Frame, h *ssa.BasicBlock, phis []*ssa.Phi, cur *Sta
 	for _, a := range autos {
 		e.sc.assume(sx(">=", fr.vals[a.phi].T, a.init), "auto-invariant: counter "+a.phi.Comment+" never below its initial value")
 	}
+	for _, b := range bounds {
+		e.sc.assume(implies(g, boundTerm(b, fr.vals[b.phi].T)), "auto-invariant (checked): "+b.phi.Comment+" below the loop bound")
+	}
 	env = e.loopEnv(fr, h, phis, nil)
 	for _, inv := range invs {
-		t := e.evalClause(inv, env, cur, fr.old, fr)
+		t := e.evalClause(inv, env, cur, fr.oldFor(cur), fr)
 		e.sc.assume(implies(g, t), "loop invariant "+inv.Label)
 	}
 }
@@ -356,13 +418,16 @@ func (e *Eng) loopEnv(fr *Frame, h *ssa.BasicBlock, phis []*ssa.Phi, override ma
 		if p.Comment == "" {
 			continue
 		}
+		name := strings.ReplaceAll(p.Comment, ".", "_")
 		if override != nil {
 			if v, ok := override[p]; ok {
 				env.vars[p.Comment] = v
+				env.vars[name] = v
 				continue
 			}
 		}
 		env.vars[p.Comment] = fr.vals[p]
+		env.vars[name] = fr.vals[p]
 	}
 	return env
 }
@@ -372,6 +437,21 @@ func (e *Eng) backEdge(fr *Frame, from *ssa.BasicBlock, h *ssa.BasicBlock, st *S
 	var invs []*Clause
 	if fr.fspec != nil {
 		invs = fr.fspec.LoopInvs[ord]
+	}
+	if ab := fr.autoBounds[h]; ab != nil {
+		pi := -1
+		for i, p := range h.Preds {
+			if p == from {
+				pi = i
+			}
+		}
+		vals := map[*ssa.Phi]*Val{}
+		for _, ins := range h.Instrs {
+			if p, ok := ins.(*ssa.Phi); ok {
+				vals[p] = e.valOf(fr, st, p.Edges[pi])
+			}
+		}
+		ab(st, vals, from, guard)
 	}
 	if len(invs) == 0 {
 		return
@@ -392,7 +472,7 @@ func (e *Eng) backEdge(fr *Frame, from *ssa.BasicBlock, h *ssa.BasicBlock, st *S
 	}
 	env := e.loopEnv(fr, h, phis, ov)
 	for _, inv := range invs {
-		t := e.evalClause(inv, env, st, fr.old, fr)
+		t := e.evalClause(inv, env, st, fr.oldFor(st), fr)
 		e.oblige("loop-step", fmt.Sprintf("#%d/%s", ord, inv.Label), inv.Props, from.Instrs[len(from.Instrs)-1].Pos(), guard, t)
 	}
 }
@@ -607,13 +687,15 @@ func (e *Eng) execInstr(fr *Frame, b *ssa.BasicBlock, ins ssa.Instruction, st *S
 	case *ssa.Alloc:
 		pt := derefType(x.Type())
 		ref := e.alloc(st, x.Comment)
-		e.sc.assume(sx(">", ref, "0"), "alloc non-nil")
 		v := &Val{T: ref, Typ: x.Type(), KnownLen: -1}
 		if a, ok := types.Unalias(pt).Underlying().(*types.Array); ok {
 			v.Loc = &Loc{Kind: LArr, Base: ref, ET: a.Elem()}
 			e.store(st, v.Loc, e.zero(pt), "zero array")
 		} else if isStructValue(pt) {
 			e.zeroObject(st, ref, pt, "zero "+x.Comment)
+			if isNamed(pt, "bytes", "Buffer") {
+				e.setStore(st, "BL", "(Array Int Int)", ref, "0", "empty bytes.Buffer")
+			}
 		} else {
 			v.Loc = &Loc{Kind: LCell, Base: ref, ET: pt}
 			e.store(st, v.Loc, e.zero(pt), "zero cell")
@@ -622,7 +704,10 @@ func (e *Eng) execInstr(fr *Frame, b *ssa.BasicBlock, ins ssa.Instruction, st *S
 	case *ssa.FieldAddr:
 		base := e.valOf(fr, st, x.X)
 		stt := derefType(x.X.Type())
-		e.nilCheck(fr, x.Block(), base.T, descr(x.X, 0), x.Pos(), g)
+		if base.Loc == nil || (base.Loc.Kind != LElem && base.Loc.Kind != LPath && base.Loc.Kind != LField) {
+			// the address of a slice element / struct field is never nil
+			e.nilCheck(fr, x.Block(), base.T, descr(x.X, 0), x.Pos(), g)
+		}
 		fr.vals[x] = e.fieldAddr(base, stt, x.Field, x.Type())
 	case *ssa.Field:
 		sv := e.valOf(fr, st, x.X)
@@ -761,6 +846,9 @@ func (e *Eng) execInstr(fr *Frame, b *ssa.BasicBlock, ins ssa.Instruction, st *S
 		e.oblige("nilmap", descr(x.Map, 0), e.safety(fr), x.Pos(), g, not(eq(m.T, "0")))
 		e.checkProtectedRegionWrite(fr, st, "MH."+typeKey(mt.Key())+"."+typeKey(mt.Elem()), x.Pos(), g)
 		e.mapStore(st, mt, m.T, k.T, v.T)
+		if e.allocRefs[v.T] {
+			e.published[v.T] = true
+		}
 	case *ssa.Range:
 		src := e.valOf(fr, st, x.X)
 		fr.vals[x] = &Val{T: src.T, Typ: x.X.Type(), KnownLen: -1}
@@ -941,8 +1029,16 @@ func (e *Eng) ptrToLoc(l *Loc, ptrType types.Type) *Val {
 	return &Val{T: t, Typ: ptrType, Loc: l, KnownLen: -1}
 }
 
-// remember literal/closure information of values stored into cells (escaping locals)
-func (e *Eng) trackStoredVal(l *Loc, v *Val) {}
+// a freshly allocated object whose reference is stored into the heap may become visible to other goroutines
+func (e *Eng) trackStoredVal(l *Loc, v *Val) {
+	if e.allocRefs[v.T] {
+		// stores into the function's own (still unpublished) locals do not publish
+		if l != nil && (l.Kind == LCell || l.Kind == LField) && e.allocRefs[l.Base] && !e.published[l.Base] {
+			return
+		}
+		e.published[v.T] = true
+	}
+}
 
 func (e *Eng) mapStore(st *State, mt *types.Map, m, k, v string) {
 	hr, hs, vr, vs := e.mapRegions(mt)
@@ -1397,15 +1493,19 @@ func (e *Eng) nilCheck(fr *Frame, b *ssa.BasicBlock, term, key string, pos token
 	if fr.inheritedNonNil[term] {
 		return
 	}
-	for _, cb := range fr.nonnil[term] {
-		if cb == b || cb.Dominates(b) {
-			return
+	if b != nil {
+		for _, cb := range fr.nonnil[term] {
+			if cb == b || cb.Dominates(b) {
+				return
+			}
 		}
 	}
 	if fr.nonnil == nil {
 		fr.nonnil = map[string][]*ssa.BasicBlock{}
 	}
-	fr.nonnil[term] = append(fr.nonnil[term], b)
+	if b != nil {
+		fr.nonnil[term] = append(fr.nonnil[term], b)
+	}
 	e.oblige("nil", key, e.safety(fr), pos, g, not(eq(term, "0")))
 }
 
@@ -1423,4 +1523,13 @@ func (fr *Frame) knownNonNilAt(b *ssa.BasicBlock) map[string]bool {
 		}
 	}
 	return out
+}
+
+// oldFor: the state `old(...)` refers to inside a function body: the state right after the
+// monitor lock was taken for monitor functions, the entry state otherwise.
+func (fr *Frame) oldFor(cur *State) *State {
+	if fr.fspec != nil && fr.fspec.Monitor != "" && cur.monOld != nil {
+		return cur.monOld
+	}
+	return fr.old
 }
